@@ -2187,6 +2187,22 @@ func (w *recWorld) judgeComplete(s *recSession, tag string) {
 			if t.kind == 1 && wrapFrom >= 0 && f >= wrapFrom && (wrapTo < 0 || f < wrapTo) {
 				h = append(h, wrapWhy)
 			}
+			if t.sp.PauseAt > 0 && f < t.sp.PauseAt && w.trk[0] != nil && w.trk[1] != nil {
+				// Captured before the publisher's silence, but still held back
+				// in the sample builder when it began (a packet before it was
+				// outstanding): it is handed on hours later, after frames of the
+				// other track that were captured after the silence.
+				half := w.t0sim + time.Duration(t.sp.PauseS)*time.Second/2
+				held := false
+				for q := lo; q < t.frames[f].First && !held; q++ {
+					if r, ok := got[q]; !ok || r.at > half {
+						held = true
+					}
+				}
+				if held {
+					h = append(h, fmt.Sprintf("held back in the sample builder (behind a packet that was still outstanding) throughout the publisher's silence of %d s, the frame was handed to the muxer after frames of the other track captured hours later: the muxer discards a block that is that much older than the cluster it is writing", t.sp.PauseS))
+				}
+			}
 			if t.sp.Codec == "h264" && t.sp.AU {
 				h = append(h, "H.264 key frames are access units of several NAL units (the sample builder takes every NAL unit packet for a frame of its own)")
 			}
